@@ -1013,7 +1013,9 @@ def parse(
 
     cursor = conn.cursor()
 
-    if not hasattr(parse, "initialized_dbs") or full_db_path not in parse.initialized_dbs:
+    was_initialized = hasattr(parse, "initialized_dbs") and full_db_path in parse.initialized_dbs
+
+    if not was_initialized:
         # Check if the database file is corrupt
         try:
             cursor.execute("PRAGMA integrity_check;")
@@ -1053,13 +1055,30 @@ def parse(
     # Check if the txt exists in the database
     txt_hash = _calculate_txt_hash(txt)
 
-    cursor.execute("BEGIN TRANSACTION;")
-    cursor.execute(
-        "SELECT last_hit, data FROM models WHERE txt_hash=? AND pymoca_version=?",
-        (txt_hash, pymoca_version),
-    )
-    result = cursor.fetchone()
-    conn.commit()
+    try:
+        cursor.execute("BEGIN TRANSACTION;")
+        cursor.execute(
+            "SELECT last_hit, data FROM models WHERE txt_hash=? AND pymoca_version=?",
+            (txt_hash, pymoca_version),
+        )
+        result = cursor.fetchone()
+        conn.commit()
+    except sqlite3.DatabaseError:
+        conn.close()
+        if not was_initialized:
+            raise
+        # The database was damaged (corrupted, tables dropped or replaced) after this
+        # process checked it: check and repair it again, once.
+        logger.warning("Model cache database unusable, checking it again...")
+        parse.initialized_dbs.discard(full_db_path)
+        return parse(
+            txt,
+            model_cache_folder=model_cache_folder,
+            cache_db=cache_db,
+            cache_expiration_days=cache_expiration_days,
+            always_update_last_hit=always_update_last_hit,
+            bypass_cache=bypass_cache,
+        )
 
     tree = None
 
